@@ -40,12 +40,22 @@ def _col(vals):
 
 
 class Free(Sort):
-    def __init__(self, name, n=1, m=1, scale=2.0, nonneg=False):
-        self.name, self.shape, self.scale, self.nonneg = name, (n, m), scale, nonneg
+    def __init__(self, name, n=1, m=1, scale=2.0, nonneg=False, norm_le=None):
+        """norm_le: requires |x|^2 <= norm_le^2 (declared to the ring/SMT as a nonnegative polynomial)"""
+        self.name, self.shape, self.scale, self.nonneg, self.norm_le = name, (n, m), scale, nonneg, norm_le
 
     def bind(self, low):
         R = low.R
-        return {p: Frac.of(R, R.gen(f"{p[0]}_{p[1]}" + (f"_{p[2]}" if self.shape[1] > 1 else ""), nonneg=self.nonneg)) for p in self.payloads()}
+        out = {p: Frac.of(R, R.gen(f"{p[0]}_{p[1]}" + (f"_{p[2]}" if self.shape[1] > 1 else ""), nonneg=self.nonneg)) for p in self.payloads()}
+        if self.norm_le is not None:
+            acc = R.const(Fraction(self.norm_le) ** 2)
+            for v in out.values():
+                acc = acc - v.num * v.num
+            R.declare_nonneg(acc)
+        return out
+
+    def describe(self):
+        return f"Free({self.name}{list(self.shape)})" + (f" [requires |{self.name}| <= {self.norm_le}]" if self.norm_le is not None else "")
 
     def sample(self, rng):
         r, c = self.shape
@@ -59,6 +69,14 @@ class Pos(Free):
 
     def __init__(self, name, n=1, scale=3.0):
         super().__init__(name, n, 1, scale, nonneg=True)
+
+    def bind(self, low):
+        out = super().bind(low)
+        R = low.R
+        R.positive = getattr(R, "positive", set())
+        for v in out.values():
+            R.positive |= v.num.vars()
+        return out
 
     def describe(self):
         return f"Pos({self.name}) [requires {self.name} > 0]"
@@ -123,8 +141,10 @@ class RotVec(Sort):
 
     shape = (3, 1)
 
-    def __init__(self, name, k=2, lo=0.2, hi=3.0):
-        self.name, self.k, self.lo, self.hi = name, k, lo, hi
+    def __init__(self, name, k=2, lo=0.2, hi=3.0, phi_range=None):
+        """phi_range: None | '0_pi' | '0_halfpi' — a `requires` on the base angle phi = theta/k, enabling the
+        collapsing rules acos(cos phi) = phi / atan(tan phi) = phi ('0_halfpi' also gives sin phi, cos phi >= 0)"""
+        self.name, self.k, self.lo, self.hi, self.phi_range = name, k, lo, hi, phi_range
 
     def bind(self, low):
         R = low.R
@@ -136,7 +156,19 @@ class RotVec(Sort):
         R.add_relation(R.index[f"{self.name}2"], 2, phi * phi * (k * k) - w[0] * w[0] - w[1] * w[1])
         R.add_relation(R.index[f"s_{self.name}"], 2, R.const(1) - c * c)
         low.register_angle(R.index[f"phi_{self.name}"], s, c)
+        if self.phi_range:
+            low.angle_range = getattr(low, "angle_range", {})
+            low.angle_range[R.index[f"phi_{self.name}"]] = self.phi_range
+            if self.phi_range in ("0_halfpi", "0_quarterpi"):
+                R.nonneg.add(R.index[f"s_{self.name}"])
+                R.nonneg.add(R.index[f"c_{self.name}"])
+                if self.phi_range == "0_quarterpi":
+                    R.declare_nonneg(c - s)
+                    low.angle_range[R.index[f"phi_{self.name}"]] = "0_halfpi"
+            elif self.phi_range == "0_pi":
+                R.nonneg.add(R.index[f"s_{self.name}"])
         self.w, self.phi, self.s, self.c = w, phi, s, c
+        low.seed_root(R.reduce(s.raw_mul(s)), low.abs_poly(s))
         return {(self.name, i, 0): Frac.of(R, w[i]) for i in range(3)}
 
     def sample(self, rng):
@@ -281,3 +313,20 @@ class Composite(Sort):
 
     def describe(self):
         return f"Composite({self.name}: " + ", ".join(p.describe() for p in self.parts) + ")"
+
+
+class PiConst(Sort):
+    """the real number pi as a symbolic atom (ring variable `pi`; the SMT side bounds it by 15 digits).
+    Needed because double(pi) != pi: range statements such as |log X| <= pi are about the real pi."""
+
+    shape = (1, 1)
+
+    def __init__(self, name="pi"):
+        self.name = name
+
+    def bind(self, low):
+        R = low.R
+        return {(self.name, 0, 0): Frac.of(R, R.gen("pi", nonneg=True))}
+
+    def sample(self, rng):
+        return [[math.pi]]
